@@ -30,7 +30,7 @@ REPO = os.environ.get("VERIF_REPO", "/repo")
 NPROC = int(os.environ.get("VERIF_NPROC", "16"))
 CASES_PER_FILE = 250
 COQC_TIMEOUT = 600
-CASE_TIMEOUT = int(os.environ.get("VERIF_CASE_TIMEOUT", "60"))
+CASE_TIMEOUT = int(os.environ.get("VERIF_CASE_TIMEOUT", "30"))
 
 F_DISAGREE, F_PROPFAIL, F_SKIP = 1, 2, 4
 
@@ -175,8 +175,8 @@ def theorem_inventory(prop_id):
 # Running the implementation
 
 
-class _Timeout(Exception):
-    pass
+class _Timeout(BaseException):
+    """not an Exception: bigtree's setters catch Exception and roll back; the timeout must get through"""
 
 
 def _alarm(signum, frame):
@@ -196,7 +196,7 @@ def _worker_init(engine_mod):
 
 def _worker_run(arg):
     prop, case = arg
-    signal.alarm(CASE_TIMEOUT)
+    signal.setitimer(signal.ITIMER_REAL, CASE_TIMEOUT, 1.0)   # re-fires every second once expired
     try:
         return _ENGINE.run_impl(prop, case)
     except _Timeout:
@@ -204,20 +204,48 @@ def _worker_run(arg):
     except BaseException as e:  # noqa
         return {"_harness_error": "".join(traceback.format_exception_only(type(e), e)).strip()[:400]}
     finally:
-        signal.alarm(0)
+        signal.setitimer(signal.ITIMER_REAL, 0)
+
+
+MAX_TIMEOUTS = 6      # after this many cases hit the per-case timeout the rest of the batch is not run
 
 
 class ImplPool:
+    """Worker processes running the implementation.  A change that makes the implementation loop
+    for ever must not make the check run for hours: after MAX_TIMEOUTS timed-out cases the remaining
+    cases of the batch are not run (they are marked `_not_run` and ignored; the timed-out ones are
+    reported as disagreements)."""
+
     def __init__(self, engine_mod):
-        ctx = mp.get_context("fork")
-        self.pool = ctx.Pool(NPROC, initializer=_worker_init, initargs=(engine_mod,))
+        self.engine_mod = engine_mod
+        self.pool = None
+
+    def _ensure(self):
+        if self.pool is None:
+            ctx = mp.get_context("fork")
+            self.pool = ctx.Pool(NPROC, initializer=_worker_init, initargs=(self.engine_mod,))
 
     def run(self, prop, cases):
-        return self.pool.map(_worker_run, [(prop, c) for c in cases], chunksize=8)
+        self._ensure()
+        out = []
+        timeouts = 0
+        it = self.pool.imap(_worker_run, [(prop, c) for c in cases], chunksize=4)
+        for o in it:
+            out.append(o)
+            if isinstance(o, dict) and str(o.get("_harness_error", "")).startswith("timeout"):
+                timeouts += 1
+                if timeouts >= MAX_TIMEOUTS:
+                    break
+        if len(out) < len(cases):
+            self.close()
+            out += [{"_not_run": True} for _ in range(len(cases) - len(out))]
+        return out
 
     def close(self):
-        self.pool.terminate()
-        self.pool.join()
+        if self.pool is not None:
+            self.pool.terminate()
+            self.pool.join()
+            self.pool = None
 
 
 # ----------------------------------------------------------------------------------------------
@@ -230,6 +258,9 @@ def coq_eval(engine, prop, cases, obss, workdir, tag="cases"):
     flags = {}
     terms = []
     for i, (c, o) in enumerate(zip(cases, obss)):
+        if isinstance(o, dict) and "_not_run" in o:
+            terms.append(None)
+            continue
         if isinstance(o, dict) and "_harness_error" in o:
             flags[i] = F_DISAGREE
             terms.append(None)
@@ -407,9 +438,12 @@ def run_part(prop, engine_mod, tier, seed, workdir, replay_case=None, amplify=Fa
         if h in seen:
             continue
         seen.add(h)
-        if not (isinstance(o, dict) and "_harness_error" in o) and engine.nontrivial(prop, c, o):
+        if not (isinstance(o, dict) and ("_harness_error" in o or "_not_run" in o)) and engine.nontrivial(prop, c, o):
             nontrivial += 1
-    pick = sorted(rng.sample(range(len(cases)), min(2, len(cases)))) if cases else []
+    okidx = [i for i, o in enumerate(obss) if not (isinstance(o, dict) and ("_harness_error" in o or "_not_run" in o))]
+    pick = sorted(rng.sample(okidx, min(2, len(okidx)))) if okidx else []
+    res["timeouts_or_errors"] = sum(1 for o in obss if isinstance(o, dict) and "_harness_error" in o)
+    res["not_run"] = sum(1 for o in obss if isinstance(o, dict) and "_not_run" in o)
     res.update({
         "evaluations": len(cases), "distinct_nontrivial": nontrivial, "strata": strata,
         "skipped_by_model": skipped, "disagreements": len(bad),
@@ -476,6 +510,8 @@ def run_check(prop: str, engine_mods, tier: str, seed: int, replay: str | None =
             "partial_clauses": [c for p in parts for c in p["partial_clauses"]],
             "correspondence": [p["correspondence"] for p in parts],
             "anchors_changed": anchors_changed,
+            "implementation_errors_or_timeouts": sum(p.get("timeouts_or_errors", 0) for p in parts),
+            "cases_not_run_after_timeouts": sum(p.get("not_run", 0) for p in parts),
         }
         if not names:      # no theorem file yet: do not present proof-level counts
             for k in ("obligations", "discharged", "theorems"):
